@@ -2,10 +2,13 @@ SPECIFICATION Spec
 CONSTANTS
   MaxBytes = 3
   Cuts = {"transit"}
+  MaxNotices = 1
+  NoticeEndsStream = FALSE
   OriginErrorFatal = TRUE
 INVARIANTS
   Prefix
   EOFOnlyAfterAll
+  NoSpontaneousClose
   NoAbort
 PROPERTIES
   Complete
